@@ -53,6 +53,10 @@ pub struct ConnMon {
     pub dest_log: Vec<(u64, SocketAddr)>,
     /// frames received (all types) at the moment of the local close()
     pub frames_rx_at_close: Option<u64>,
+    /// times at which this (locally closed) connection decoded further frames from its peer after
+    /// its first announcement went out
+    pub heard_after_close_ns: Vec<u64>,
+    pub frames_rx_running: u64,
     /// every transmit: (time, destination, bytes), kept only when `log_transmits` is on
     pub tx_log: Vec<(u64, SocketAddr, u32)>,
     /// C05 credit ledger: what the peer has advertised to this sender (superset)
@@ -333,6 +337,13 @@ impl Mon {
                 cm.last_rx_ns = d.at.max(cm.last_rx_ns);
             }
             cm.max_pto_ns = cm.max_pto_ns.max(pr.pto_data.as_nanos() as u64);
+            if cm.local_close.is_some() && !cm.awaiting_close_tx {
+                let total = frame_rx_total(&conn.c.stats().frame_rx);
+                if total > cm.frames_rx_running {
+                    cm.frames_rx_running = total;
+                    cm.heard_after_close_ns.push(d.at);
+                }
+            }
         }
         if lane == Lane::Null && cm.led_on {
             {
@@ -745,6 +756,7 @@ impl Mon {
                 cm.awaiting_close_tx = false;
                 // what the closer hears from now on it hears after its first announcement
                 cm.frames_rx_at_close = Some(frame_rx_total(&conn.c.stats().frame_rx));
+                cm.frames_rx_running = frame_rx_total(&conn.c.stats().frame_rx);
                 self.cnt.inc("c08.immediacy_checks");
                 if self.lane == Lane::Null {
                     let has_close = decoded.iter().flatten().any(|d| d.iter().any(|p| p.has_close()));
